@@ -6,6 +6,10 @@ HOOK_COMMITS = subprocess.run(["git", "-C", "/repo", "log", "--format=%H %s"], c
 hooks = [l.split()[0] for l in HOOK_COMMITS if "verif hooks:" in l]
 
 CHECKS = {
+ "C03": dict(cat="model_checking", ref="§4 C03, §3.3",
+   text="Rules.tla transcribes the in-toto specification's artifact-rule algorithm (functional form and a state machine with one Apply step per rule; TLC checks that both agree, that the queue only shrinks and that a rule only consumes artifacts its pattern / source prefix matches). TLC enumerates rule lists x item link states x referenced-step states; every scenario is run through the real rule engine and the verdict must equal the specification's; seeded random scenarios beyond the bounds (up to 4+4 rules, 6 paths, nested prefixes) are validated step by step (consumed set and remaining queue after every rule, hook in rulelib.rs) against Trace_Rules.tla.",
+   note="Trusted: TLC, glob::Pattern (default options) as fnmatch, the harness builders. Inputs restricted to C03's own quantifier: normalised relative paths, portable glob syntax; '[' only in DISALLOW. Bounds: 3 paths, 57-rule alphabet, rule lists <= 2 in TLC (<= 4+4 in traces).",
+   tech="TLA+ spec Rules.tla/Glob.tla model-checked with TLC; spec->impl replay of every TLC scenario via guarded re-export verif::apply_rules; impl->spec per-rule trace validation (Trace_Rules.tla)"),
  "C04": dict(cat="model_checking", ref="§4 C04, §3.2",
    text="TLC exhaustively explores Metablock.tla (threshold verification shaped like the code, de-duplication choice and visiting order nondeterministic) for every threshold / authorised list / signature list inside the bounds and proves Sound, Complete and CountedGood; every input is then concretised with real keys (several key types) and run through Metablock::verify under every permutation, and seeded random runs beyond the bounds are validated as traces (sig_counted hook) against Trace_Metablock.tla.",
    note="Trusted: TLC, ring (signature primitives), the harness concretisation (sign with the library, relabel / corrupt). Bounds: lists <= 2 (quick) / 3 (thorough) over 3 keys + 1 foreign key. Reading: 'each key signs at most once' = no two signatures share a claimed id or a signer.",
